@@ -462,6 +462,7 @@ func main() {
 				Args []json.RawMessage ` + "`json:\"args\"`" + `
 				Type string            ` + "`json:\"type\"`" + `
 				Data string            ` + "`json:\"data\"`" + `
+				First string           ` + "`json:\"first\"`" + `
 				Steps []methodStep     ` + "`json:\"steps\"`" + `
 				Req  wireReq           ` + "`json:\"req\"`" + `
 				Opt  serveOpt          ` + "`json:\"opt\"`" + `
@@ -493,6 +494,17 @@ func main() {
 						resp = serve(msg.Req, msg.Opt)
 					case "json":
 						resp = doJSON(msg.Type, msg.Data)
+						if msg.First != "" {
+							// the same value decoded from another document first (a decoder loop, a pooled value)
+							if t, ok := modelTypes[msg.Type]; ok {
+								v := reflect.New(t)
+								if json.Unmarshal([]byte(msg.First), v.Interface()) == nil && json.Unmarshal([]byte(msg.Data), v.Interface()) == nil {
+									if out, err := json.Marshal(v.Interface()); err == nil {
+										resp["out_reused"] = string(out)
+									}
+								}
+							}
+						}
 					case "methods":
 						resp = doMethods(msg.Type, msg.Data, msg.Steps)
 					case "roundtrip":
